@@ -542,9 +542,9 @@ Good(dt) ==
       [] dt.k = "bscaled" -> {GI(dt.max.a, dt.max.d - 1), BG(dt.max.a, dt.max.d - 1)}
       [] dt.k = "bool" -> {B(TRUE)}
       [] dt.k = "enum" -> {I(dt.mem[1].v)}
-      [] dt.k = "string" -> {Plain(Max2(dt.minc, 1))}
+      [] dt.k = "string" -> {Plain(IF dt.maxc = 0 THEN 0 ELSE Max2(dt.minc, 1))}     \* (maxchars = 0: only the empty string)
       [] dt.k = "blob" -> {B64(dt.minb), Bytes(dt.minb)}
-      [] dt.k = "array" -> {L(Rep(g, Max2(dt.minlen, 1))) : g \in Good(dt.el)}
+      [] dt.k = "array" -> {L(Rep(g, IF dt.maxlen = 0 THEN 0 ELSE Max2(dt.minlen, 1))) : g \in Good(dt.el)}   \* (maxlen = 0: only the empty array)
       [] dt.k = "tuple" -> {L(gs) : gs \in SeqProd([i \in 1 .. Len(dt.els) |-> Good(dt.els[i])])}
       [] dt.k = "struct" -> {O([i \in 1 .. Len(dt.mem) |-> [k |-> dt.mem[i].n, v |-> gs[i]]]) :
                                gs \in SeqProd([i \in 1 .. Len(dt.mem) |-> Good(dt.mem[i].t)])}
@@ -556,12 +556,12 @@ IVal(dt) ==
       [] dt.k = "bigint" -> BI(dt.min.a, dt.min.d)
       [] dt.k = "scaled" -> N(dt.max)
       [] dt.k = "gscaled" -> G(4 * dt.min, FALSE)
-      [] dt.k = "bscaled" -> BG(dt.min.a, dt.min.d + 1)      \* (not the limit itself, see C01-scaled-limit-at-2^53-rejected)
+      [] dt.k = "bscaled" -> BG(dt.min.a, dt.min.d)
       [] dt.k = "bool" -> B(FALSE)
       [] dt.k = "enum" -> Mem(dt.mem[Len(dt.mem)].v, dt.mem[Len(dt.mem)].n)
-      [] dt.k = "string" -> Plain(Max2(dt.minc, 1))
+      [] dt.k = "string" -> Plain(IF dt.maxc = 0 THEN 0 ELSE Max2(dt.minc, 1))
       [] dt.k = "blob" -> Bytes(dt.maxb)
-      [] dt.k = "array" -> L(Rep(IVal(dt.el), Max2(dt.minlen, 1)))
+      [] dt.k = "array" -> L(Rep(IVal(dt.el), IF dt.maxlen = 0 THEN 0 ELSE Max2(dt.minlen, 1)))
       [] dt.k = "tuple" -> L([i \in 1 .. Len(dt.els) |-> IVal(dt.els[i])])
       [] dt.k = "struct" -> O([i \in 1 .. Len(dt.mem) |-> [k |-> dt.mem[i].n, v |-> IVal(dt.mem[i].t)]])
 
@@ -698,8 +698,7 @@ VS(d) ==
                                                             P(1, 1), P(2, 1), P(3, -1), P(0, FAR)} : PLE(d.min, q) /\ PLE(q, d.max)}}
       [] d.k = "scaled" -> {N(t) : t \in {m \in {d.min, d.min + d.scale, 0, d.max - d.scale, d.max} : d.min <= m /\ m <= d.max}}
       [] d.k = "bscaled" -> {BG(p.a, p.d) : p \in {q \in {d.min, P(d.min.a, d.min.d + 1), P(d.max.a, d.max.d - 1), d.max, P(0, 0)} \cup OddPoints :
-                                                         PLE(d.min, q) /\ PLE(q, d.max) /\ ~(q.a \in {-2, 2} /\ q.d = 0)}}
-                            \* (+-2^53 itself is left to C01: limit +- scale is not a double there, see findings.d/C01.json)
+                                                         PLE(d.min, q) /\ PLE(q, d.max)}}      \* (the limits +-2^53 included: limit +- scale is not a double there)
       [] d.k = "gscaled" -> {G(4 * n, FALSE) : n \in {m \in {d.min, d.min + 1, 0, 1, 1000, d.max - 1, d.max} : d.min <= m /\ m <= d.max}}
       [] d.k = "bool" -> {B(TRUE), B(FALSE)}
       [] d.k = "enum" -> {Mem(m.v, m.n) : m \in Rng(d.mem)}
@@ -1022,7 +1021,9 @@ Leaves == <<Dbl(-16, 40, 0, 0), Dbl(0, 160, 4, 0), Dbl(16, 16, 0, 1), Dbl(-NoLim
             BScl("1", P(-2, 0), P(2, 0)), BScl("0.5", P(-1, -5), P(2, -1)), BScl("8", P(0, 0), P(2, 0)),
             \* convenience types and the shapes the short constructor forms produce (StringType(n), BLOBType(n), IntRange())
             Text(NoLim), Text(5), Lim(Dbl(-16, 40, 4, 0)), Lim(IntT(-2, 3)), Lim(Scl(4, 0, 160)), Lim(GScl("0.1", 3, 7)),
-            Strg(2, 2, FALSE), Blob(2, 2), IntT(-16777216, 16777216), Status>>
+            Strg(2, 2, FALSE), Blob(2, 2), IntT(-16777216, 16777216), Status,
+            \* degenerate length limits: maximum 0 (value set = the empty string / blob) and minimum = maximum
+            Strg(0, 0, FALSE), Blob(0, 0), Strg(3, 3, TRUE)>>
 NL == Len(Leaves)
 Lf(i) == Leaves[((i - 1) % NL) + 1]
 SmallLeaves == <<IntT(-2, 3), GScl("0.1", 3, 7), BigT(P(1, 1), P(4, -1)), Blob(1, 3), BScl("1", P(-2, 0), P(2, 0)), Scl(4, 0, 160),
@@ -1033,6 +1034,11 @@ NS == Len(SmallLeaves)
 Sm(i) == SmallLeaves[((i - 1) % NS) + 1]
 AB(t1, t2, opt) == Stc(<<M("a", t1), M("b", t2)>>, opt)
 
+(* arrays that can only be empty (maxlen = 0) or have exactly one length, alone and nested *)
+Degenerate == <<Arr(IntT(-2, 3), 0, 0), Arr(Strg(1, 3, FALSE), 0, 0), Arr(Blob(1, 3), 3, 3),
+                Arr(Arr(IntT(-2, 3), 0, 0), 0, 2), Arr(Arr(IntT(-2, 3), 0, 2), 0, 0),
+                Tup(<<Arr(Dbl(0, 160, 4, 0), 0, 0), Strg(0, 0, FALSE)>>),
+                AB(Arr(Scl(4, 0, 160), 0, 0), Blob(0, 0), <<"b">>)>>
 Depth1 ==
     [i \in 1 .. NL |-> Arr(Lf(i), 0, 2)] \o [i \in 1 .. NL |-> Arr(Lf(i), 1, 3)]
     \o [i \in 1 .. NL |-> Tup(<<Lf(i), Lf(i + 1)>>)]
@@ -1040,6 +1046,7 @@ Depth1 ==
     \o [i \in 1 .. NL |-> AB(Lf(i + 3), Lf(i), IF i % 2 = 0 THEN <<>> ELSE <<"a", "b">>)]
     \o <<Tup(<<Lf(6), Lf(13), Lf(8)>>), Tup(<<Lf(15)>>), Arr(Lf(6), 2, 2), Arr(Lim(IntT(-2, 3)), 0, 2),
          AB(Lim(Dbl(-16, 40, 4, 0)), Text(5), <<"b">>)>>
+    \o Degenerate
 Depth2N(ns) ==
     [i \in 1 .. ns |-> Arr(Arr(Sm(i), 0, 2), 0, 2)]
     \o [i \in 1 .. ns |-> Arr(Tup(<<Sm(i), Sm(i + 1)>>), 1, 2)]
@@ -1050,11 +1057,12 @@ Depth2N(ns) ==
 Depth2 == Depth2N(NS)
 Depth1Quick ==
     [i \in 1 .. NL |-> Arr(Lf(i), 0, 2)] \o [i \in 1 .. NL \div 6 |-> Arr(Lf(6 * i - 1), 1, 3)]
-    \o [i \in 1 .. NL |-> Tup(<<Lf(i), Lf(i + 1)>>)]
+    \o [i \in 1 .. NL \div 2 |-> Tup(<<Lf(2 * i - 1), Lf(2 * i)>>)]
     \o [i \in 1 .. NL \div 2 |-> AB(Lf(2 * i - 1), Lf(2 * i + 4), <<"b">>)]
     \o [i \in 1 .. NL \div 4 |-> AB(Lf(4 * i + 3), Lf(4 * i), IF i % 2 = 0 THEN <<>> ELSE <<"a", "b">>)]
     \o <<Tup(<<Lf(6), Lf(13), Lf(8)>>), Tup(<<Lf(15)>>), Arr(Lf(6), 2, 2), Arr(Lim(IntT(-2, 3)), 0, 2),
          AB(Lim(Dbl(-16, 40, 4, 0)), Text(5), <<"b">>)>>
+    \o Degenerate
 AllPairs == [i \in 1 .. NL * NL |-> Tup(<<Lf(((i - 1) \div NL) + 1), Lf(((i - 1) % NL) + 1)>>)]
 Depth3 ==
     [i \in 1 .. NS |-> Arr(Arr(Arr(Sm(i), 0, 2), 1, 2), 0, 2)]
@@ -1077,7 +1085,8 @@ CLeaves == <<Dbl(0, 160, 0, 0), Dbl(0, 80, 0, 0), Dbl(-16, 160, 4, 0), Dbl(-NoLi
              Enm(<<[n |-> "off", v |-> 0], [n |-> "a", v |-> 1], [n |-> "b", v |-> 2], [n |-> "x", v |-> 5]>>),
              Enm(<<[n |-> "x", v |-> 1], [n |-> "big", v |-> 200]>>),
              Strg(0, NoLim, TRUE), Strg(0, NoLim, FALSE), Strg(1, 3, FALSE), Strg(0, 8, TRUE), Strg(2, 3, FALSE),
-             Blob(0, 6), Blob(1, 3), Blob(2, 8)>>
+             Blob(0, 6), Blob(1, 3), Blob(2, 8), Blob(0, 0), Strg(0, 0, FALSE),
+             Arr(IntT(0, 10), 0, 0), Arr(IntT(0, 5), 0, 0), Arr(IntT(0, 10), 2, 2)>>
 NC == Len(CLeaves)
 CSmall == <<Dbl(0, 160, 0, 0), Dbl(0, 80, 0, 0), IntT(0, 10), IntT(0, 1), Scl(4, 0, 160), BoolT,
             Enm(<<[n |-> "off", v |-> 0], [n |-> "on", v |-> 1]>>), Strg(1, 3, FALSE), Strg(0, 8, TRUE), Blob(1, 3)>>
@@ -1147,7 +1156,7 @@ PrevFreeR(d, R) == \A r \in R :
                => r.allowed = Val(d, r.c, None, r.path)
 (* vacuity guards: the catalogue exercises acceptance, both error classes and loose cases *)
 NonVacuousR(d, R) == /\ \E r \in R : \E o \in r.allowed : o.ok
-                     /\ \E r \in R : r.allowed = {WT}
+                     /\ \E r \in R : WT \in r.allowed /\ \A o \in r.allowed : ~o.ok
                      /\ \E r \in R : RE \in r.allowed
                      /\ \E r \in R : Cardinality(r.allowed) > 1
 
